@@ -363,6 +363,14 @@ def np_spacing(interp, x):
 @lib("numpy.unravel_index")
 def np_unravel_index(interp, idx, shape):
     shape = LT._shape_args([shape])
+    if isinstance(idx, STensor) and idx.rank >= 1:
+        outs = []
+        cur = idx
+        for d in reversed(shape[1:]):
+            outs.append(T.tbinop("mod", cur, d))
+            cur = T.tbinop("floordiv", cur, d)
+        outs.append(cur)
+        return tuple(_np(x) for x in reversed(outs))
     out = []
     m = idx.at([0] * idx.rank) if isinstance(idx, STensor) else idx
     for d in reversed(shape[1:]):
@@ -397,3 +405,55 @@ def np_clip(interp, a, lo, hi):
 @lib("numpy.errstate")
 def np_errstate(interp, **kw):
     return LT._NoGrad()
+
+
+@lib("numpy.argsort")
+def np_argsort(interp, a, axis=-1, kind=None):
+    """Contract: a permutation that sorts ascending (NaN last); ties in unspecified order unless
+    kind is stable.  Explored by insertion with path forks on the comparisons (small inputs)."""
+    import ast as _ast
+
+    a = _a(a)
+    if axis is None:
+        a = T.reshape(a, [-1])
+    if a.rank != 1 or not isinstance(a.shape[0], int):
+        raise Unsupported("argsort on rank-%d / symbolic-length array" % a.rank)
+    n = a.shape[0]
+    if n > 6:
+        raise Unsupported("argsort of %d symbolic values" % n)
+    rd = a.reader()
+    vals = [rd([i]) for i in range(n)]
+    order = []
+    stable = kind in ("mergesort", "stable")
+    for i in range(n):
+        pos = len(order)
+        for j in range(len(order)):
+            x, y = vals[i], vals[order[j]]
+            # x goes before y if x < y (NaN sorts last); for an unstable sort equal elements may
+            # also swap, which is explored as a separate branch
+            lt = V.b_or(V.f_lt(x, y), V.b_and(V.b_not(V.f_isnan(x)), V.f_isnan(y))) if a.dtype == FLOAT else V.i_lt(x, y)
+            if interp.truth(lt):
+                pos = j
+                break
+            if not stable:
+                eq = V.f_eq(x, y) if a.dtype == FLOAT else V.i_eq(x, y)
+                if eq is not False and interp.truth(eq):
+                    if interp.path.choose(2, "argsort-tie") == 1:
+                        pos = j
+                        break
+        order.insert(pos, i)
+    return T.from_flat([n], order, INT, kind="numpy")
+
+
+@lib("numpy.nanmedian")
+def np_nanmedian(interp, a, axis=None):
+    raise Unsupported("np.nanmedian")
+
+
+@lib("numpy.outer")
+def np_outer(interp, a, b):
+    a, b = T.reshape(_a(a), [-1]), T.reshape(_a(b), [-1])
+    ra, rb = a.reader(), b.reader()
+    dt = T.promote(a.dtype, b.dtype)
+    mul = V.f_mul if dt == FLOAT else V.i_mul
+    return _np(T.from_fn([a.shape[0], b.shape[0]], dt, lambda idx: mul(T.cast_scalar(ra([idx[0]]), dt), T.cast_scalar(rb([idx[1]]), dt)), kind="numpy"))
